@@ -69,6 +69,8 @@ type Contract struct {
 	AllocBound   *Clause
 	Logical      [][2]string // logical (universally quantified) variables of the contract: name, type
 	BridgeEnsures []*Clause // assumed at call sites, not proved against the body (abstraction bridge)
+	AssumedEnsures      []*Clause // postconditions used by callers that the body is NOT checked against (listed in evidence)
+	AssumedPanicEnsures []*Clause
 	Impls        bool     // interface contract: every implementation in /repo is verified against it
 	IfaceType    types.Type
 	IfaceSig     *types.Signature
@@ -85,7 +87,7 @@ type Define struct {
 }
 
 var headRe = regexp.MustCompile(`^(func|interface|extern|fparam|functype|define|declare|lemma|inline|constglobal|guard|refcount|reflink|reftable|ownfield|ghostvar|axiom)\s+(.*)$`)
-var clauseRe = regexp.MustCompile(`^(requires|ensures|bridge_ensures|panic_ensures|invariant|decreases|lemma)(\[[A-Za-z0-9, ]*\])?\s*(@[A-Za-z0-9_.\-]+)?\s+(.*)$`)
+var clauseRe = regexp.MustCompile(`^(requires|ensures|bridge_ensures|assumed_ensures|assumed_panic_ensures|panic_ensures|invariant|decreases|lemma)(\[[A-Za-z0-9, ]*\])?\s*(@[A-Za-z0-9_.\-]+)?\s+(.*)$`)
 
 // ParseContracts reads //@ lines from text (comment-only Go or .spec file).
 func ParseContracts(file, text, pkg string, out *ContractSet) error {
@@ -286,6 +288,10 @@ func ParseContracts(file, text, pkg string, out *ContractSet) error {
 				cur.Ensures = append(cur.Ensures, cl)
 			case "bridge_ensures":
 				cur.BridgeEnsures = append(cur.BridgeEnsures, cl)
+			case "assumed_ensures":
+				cur.AssumedEnsures = append(cur.AssumedEnsures, cl)
+			case "assumed_panic_ensures":
+				cur.AssumedPanicEnsures = append(cur.AssumedPanicEnsures, cl)
 			case "panic_ensures":
 				cur.PanicEnsures = append(cur.PanicEnsures, cl)
 			case "lemma":
